@@ -3,6 +3,7 @@ package interp
 import (
 	"fmt"
 	"sort"
+	"sync"
 
 	"gosym/sym"
 )
@@ -74,6 +75,11 @@ type Path struct {
 	asserted  int
 	MaxDecisions int
 	pc           []*sym.Term
+	dom          map[*sym.Term]*[4]uint64 // feasible values of BV8 variables constrained only by single-variable conditions
+	impure       map[*sym.Term]bool       // BV8 variables that occur in multi-variable constraints
+	varsOf       map[*sym.Term]*sym.Term  // memo: the single variable of a term, multiVar, or nil (none)
+	ttab         map[*sym.Term]*[4]uint64 // memo: truth table of a single-BV8-variable condition
+	FastDecided  int
 	Fallback     func() []*sym.Solver // lazily started alternative back ends
 	FallbackUsed int
 }
@@ -129,6 +135,25 @@ func (m *Machine) branch(cond *sym.Term) bool {
 		panic(pathAbort{PathBudget, "decision budget exceeded"})
 	}
 	v := p.ev.Eval(cond) != 0
+	if fv, forced, altModel, ok := p.fastDecide(cond, v); ok {
+		p.FastDecided++
+		d := Decision{Taken: fv, Forced: forced}
+		if !forced {
+			alt := make([]Decision, idx+1)
+			copy(alt, p.Decisions)
+			alt[idx] = Decision{Taken: !fv}
+			p.NewWork = append(p.NewWork, WorkItem{Prefix: alt, Model: altModel})
+		}
+		p.Decisions = append(p.Decisions, d)
+		if !forced {
+			if fv {
+				p.assertPC(cond)
+			} else {
+				p.assertPC(p.Ctx.Not(cond))
+			}
+		}
+		return fv
+	}
 	var other *sym.Term
 	if v {
 		other = p.Ctx.Not(cond)
@@ -274,6 +299,16 @@ func (m *Machine) check(c value, label string) {
 			}
 			return
 		}
+		if v := p.singleVar(c); v != nil && v != multiVar && v.Sort == sym.BV8 {
+			tt := p.truthTable(c, v)
+			d := p.domain(v)
+			if d[0]&^tt[0] == 0 && d[1]&^tt[1] == 0 && d[2]&^tt[2] == 0 && d[3]&^tt[3] == 0 {
+				p.Decisions = append(p.Decisions, Decision{Taken: true, Forced: true})
+				p.Notes["assert_unsat"]++
+				p.Notes["assert_fast"]++
+				return
+			}
+		}
 		if p.ev.Eval(c) == 0 {
 			// current model already violates
 			m.violation(label, p.Model, "")
@@ -342,6 +377,176 @@ func (m *Machine) newVar(name string, s sym.Sort, kind string) *sym.Term {
 func (p *Path) assertPC(t *sym.Term) {
 	p.pc = append(p.pc, t)
 	p.Solver.Assert(t)
+	p.noteConstraint(t)
+}
+
+var multiVar = &sym.Term{}
+
+// ttCache shares truth tables of single-byte-variable conditions across paths and workers.
+var ttCache sync.Map
+
+// singleVar returns the only variable of t, multiVar if there are several, nil if none.
+func (p *Path) singleVar(t *sym.Term) *sym.Term {
+	if t.Op == sym.OpConst {
+		return nil
+	}
+	if t.Op == sym.OpVar {
+		return t
+	}
+	if r, ok := p.varsOf[t]; ok {
+		return r
+	}
+	var r *sym.Term
+	for _, a := range t.Args {
+		v := p.singleVar(a)
+		if v == nil {
+			continue
+		}
+		if v == multiVar || (r != nil && r != v) {
+			r = multiVar
+			break
+		}
+		r = v
+	}
+	p.varsOf[t] = r
+	return r
+}
+
+func (p *Path) markImpure(t *sym.Term, seen map[*sym.Term]bool) {
+	if t.Op == sym.OpConst || seen[t] {
+		return
+	}
+	seen[t] = true
+	if t.Op == sym.OpVar {
+		p.impure[t] = true
+		return
+	}
+	for _, a := range t.Args {
+		p.markImpure(a, seen)
+	}
+}
+
+func (p *Path) truthTable(cond, v *sym.Term) *[4]uint64 {
+	if tt, ok := p.ttab[cond]; ok {
+		return tt
+	}
+	key, keyOK := sym.CanonKey(cond, 200)
+	if keyOK {
+		if c, ok := ttCache.Load(key); ok {
+			tt := c.(*[4]uint64)
+			p.ttab[cond] = tt
+			return tt
+		}
+	}
+	tt := new([4]uint64)
+	small := keyOK
+	for x := 0; x < 256; x++ {
+		var r uint64
+		done := false
+		if small {
+			budget := 4000
+			r, done = sym.EvalTree(cond, uint64(x), &budget)
+			if !done {
+				small = false
+			}
+		}
+		if !done {
+			r = sym.Eval(cond, map[string]uint64{v.Name: uint64(x)})
+		}
+		if r != 0 {
+			tt[x>>6] |= 1 << uint(x&63)
+		}
+	}
+	if keyOK {
+		ttCache.Store(key, tt)
+	}
+	p.ttab[cond] = tt
+	return tt
+}
+
+func (p *Path) domain(v *sym.Term) *[4]uint64 {
+	d, ok := p.dom[v]
+	if !ok {
+		d = &[4]uint64{^uint64(0), ^uint64(0), ^uint64(0), ^uint64(0)}
+		p.dom[v] = d
+	}
+	return d
+}
+
+// noteConstraint keeps the per-byte domains in step with the path condition.
+func (p *Path) noteConstraint(t *sym.Term) {
+	v := p.singleVar(t)
+	if v == nil {
+		return
+	}
+	if v == multiVar || v.Sort != sym.BV8 {
+		if v == multiVar {
+			p.markImpure(t, map[*sym.Term]bool{})
+		}
+		return
+	}
+	tt := p.truthTable(t, v)
+	d := p.domain(v)
+	for i := range d {
+		d[i] &= tt[i]
+	}
+}
+
+func pickBit(s *[4]uint64) (int, bool) {
+	for i, w := range s {
+		if w != 0 {
+			for b := 0; b < 64; b++ {
+				if w&(1<<uint(b)) != 0 {
+					return i*64 + b, true
+				}
+			}
+		}
+	}
+	return 0, false
+}
+
+// fastDecide settles a condition over a single byte variable from its domain
+// without the solver. modelSide is the truth value under the current model.
+// It returns the side to take, whether the other side is infeasible, and a model for the other side.
+func (p *Path) fastDecide(cond *sym.Term, modelSide bool) (side, forced bool, altModel map[string]uint64, ok bool) {
+	v := p.singleVar(cond)
+	if v == nil || v == multiVar || v.Sort != sym.BV8 {
+		return
+	}
+	tt := p.truthTable(cond, v)
+	d := p.domain(v)
+	var tset, fset [4]uint64
+	for i := range d {
+		tset[i] = d[i] & tt[i]
+		fset[i] = d[i] &^ tt[i]
+	}
+	_, anyT := pickBit(&tset)
+	_, anyF := pickBit(&fset)
+	switch {
+	case !anyT && !anyF:
+		return // domain empty: let the solver speak
+	case !anyF:
+		return true, true, nil, true
+	case !anyT:
+		return false, true, nil, true
+	}
+	if p.impure[v] {
+		return // both sides possible by domain, but other constraints may exclude one
+	}
+	// both feasible and independent of everything else: patch the model for the alternative
+	alt := make(map[string]uint64, len(p.Model)+1)
+	for k, x := range p.Model {
+		alt[k] = x
+	}
+	var other *[4]uint64
+	if modelSide {
+		other = &fset
+	} else {
+		other = &tset
+	}
+	x, _ := pickBit(other)
+	alt[v.Name] = uint64(x)
+	return modelSide, false, alt, true
 }
 
 // solve asks the primary solver and, on unknown, the fallback back ends with
